@@ -87,6 +87,7 @@ class World(object):
         self.server = server
         self.options_calls = 0
         self.script_underrun = False
+        self.hook = None         # called once, at the first attempt of the current point (request in flight)
 
     # ---- scripted pieces
     def time(self):
@@ -108,6 +109,7 @@ class World(object):
         if self.point is None:
             self.point = self._new_point('unexpected')
             self.points.append(self.point)
+        self.fire_hook()
         if not self.script:
             self.script_underrun = True
             kind = 'refused'
@@ -118,6 +120,11 @@ class World(object):
         if kind == 'ok':
             return _Resp()
         raise_for(kind, req.full_url, self.statuses.get(kind))
+
+    def fire_hook(self):
+        h, self.hook = self.hook, None
+        if h is not None:
+            h()
 
     @staticmethod
     def _new_point(label):
@@ -133,6 +140,7 @@ class World(object):
 
     def end_point(self):
         self.point = None
+        self.hook = None
 
     # ---- activation
     def __enter__(self):
@@ -179,6 +187,7 @@ class _Handler(BaseHTTPRequestHandler):
         if w.point is None:
             w.point = w._new_point('unexpected')
             w.points.append(w.point)
+        w.fire_hook()
         w.point['attempts'].append(rec)
         status = {'ok': 200, '5xx': self.server.statuses.get('5xx', 503),
                   '4xx': self.server.statuses.get('4xx', 400)}[kind]
@@ -373,3 +382,36 @@ def block_count(path):
         return 0
     with open(path) as f:
         return sum(1 for line in f if line.startswith('# Execution Start: '))
+
+
+class InFlight(object):
+    """data points that *another thread* hands to the run while a request is in flight: the
+    rendezvous is the first attempt of the request (the payload has been built by then)"""
+
+    def __init__(self, session, dps):
+        self.session = session
+        self.dps = dps
+        self.fired = False
+        self.blocked = False     # the other thread could not finish while the request was in flight
+        self.error = None
+        self.thread = None
+
+    def __call__(self):
+        self.fired = True
+
+        def work():
+            try:
+                for d in self.dps:
+                    self.session.feed(d)
+            except BaseException as e:  # noqa
+                self.error = '%s: %s' % (type(e).__name__, e)
+        self.thread = threading.Thread(target=work)
+        self.thread.start()
+        self.thread.join(2.0)
+        self.blocked = self.thread.is_alive()
+
+    def finish(self):
+        if self.thread is not None:
+            self.thread.join(30)
+            if self.thread.is_alive():
+                raise lib.InfraError('a persisting thread never finished')
